@@ -18,6 +18,16 @@ CHECKS = {
         "objects, times 0..4, depth <=5; order inside one time point is not compared.",
         "DESIGN.md section 4 C01",
     ),
+    "C09": (
+        "exhaustive enumeration of repeat/ending/navigation structures x content variants x options; reference acceptor and reference paths",
+        "Every structure of every class (simple, nested, volta shapes, D.C./D.S. with Fine/Coda, combinations) over up to 5-6 one-bar "
+        "measures, times every content variant, is unfolded by every entry point and option combination on the real implementation; the "
+        "produced parts are compared with the concatenation along the path the implementation reports, the path is run through a "
+        "reference acceptor for the notation, and on the unambiguous sub-class compared with a reference interpreter of the notation.",
+        "Trusted: the acceptor / interpreter in checks/c09.py; exact maximal paths asserted only for simple repeats, 1|2 and 1,2|3 voltas "
+        "and a D.C./D.S. at the end of the piece (al Fine); coda forms are checked for validity, totality and copy correctness only.",
+        "DESIGN.md section 4 C09",
+    ),
     "C20": (
         "exhaustive enumeration of call sequences (depth 2) over an object family + stateless enumeration of all interleavings of iteration clients",
         "Every ordered pair (and every repetition) of read-only entry points is executed on every object of an enumerated family; "
